@@ -689,3 +689,363 @@ Proof.
     f_equal. apply Z.mod_small. exact Hb. }
   rewrite Hn. rewrite (dec_oid_bytes_rt _ _ Eb). reflexivity.
 Qed.
+
+(** ** Composite types: SEQUENCE/SET, SEQUENCE OF, CHOICE, given the round
+    trip of the nested codec (at the smaller fuel). *)
+Section CompositeRT.
+  Variable encT : ty -> value -> result bits.
+  Variable decT : ty -> reader value.
+  Variable normT : ty -> value -> value.
+  Variable res : ty -> ty.
+  Hypothesis HT : forall t v bs, encT t v = Ok bs -> forall rest, decT t (bs ++ rest) = Ok (normT t v, rest).
+
+  (** what decode_root returns for the root members of an encoded value *)
+  Fixpoint norm_members (ms : list (member_of ty)) (data : list (string * value)) : list (string * value) :=
+    match ms with
+    | [] => []
+    | m :: r =>
+      match lookup (m_name m) data, m_opt m with
+      | Some v, Default d =>
+        if is_default_value (res (m_ty m)) v d then (m_name m, d) :: norm_members r data
+        else (m_name m, normT (m_ty m) v) :: norm_members r data
+      | Some v, _ => (m_name m, normT (m_ty m) v) :: norm_members r data
+      | None, Default d => (m_name m, d) :: norm_members r data
+      | None, _ => norm_members r data
+      end
+    end.
+
+  Lemma dec_members_rt ms data : forall body rest,
+    enc_members encT res ms data = Ok body ->
+    dec_members decT ms (map (fun m => presence_bit res m data) (filter has_presence_bit ms)) (body ++ rest)
+    = Ok (norm_members ms data, rest).
+  Proof.
+    induction ms as [|m ms IH]; intros body rest; cbn [enc_members dec_members norm_members filter map].
+    - intros H. assert (body = []) by congruence. subst. reflexivity.
+    - destruct (enc_member encT res m data false) as [a|] eqn:Ea; [|discriminate]. cbn [bind].
+      destruct (enc_members encT res ms data) as [b|] eqn:Eb; [|discriminate]. cbn [bind]. intros H.
+      assert (body = a ++ b) by congruence. subst body. rewrite <- app_assoc.
+      unfold enc_member in Ea.
+      destruct (m_opt m) as [| |d] eqn:Eo.
+      + (* mandatory *)
+        assert (Hh : has_presence_bit m = false) by (unfold has_presence_bit; rewrite Eo; reflexivity).
+        rewrite Hh. destruct (lookup (m_name m) data) as [v|] eqn:El; [|discriminate].
+        unfold rbind. rewrite (HT _ _ _ Ea). rewrite (IH _ _ eq_refl). reflexivity.
+      + (* optional *)
+        assert (Hh : has_presence_bit m = true) by (unfold has_presence_bit; rewrite Eo; reflexivity).
+        rewrite Hh. cbn [map]. unfold presence_bit at 1. rewrite Eo.
+        destruct (lookup (m_name m) data) as [v|] eqn:El.
+        * unfold rbind. rewrite (HT _ _ _ Ea). rewrite (IH _ _ eq_refl). reflexivity.
+        * assert (a = []) by congruence. subst a. cbn [app]. apply (IH _ _ eq_refl).
+      + (* default *)
+        assert (Hh : has_presence_bit m = true) by (unfold has_presence_bit; rewrite Eo; reflexivity).
+        rewrite Hh. cbn [map]. unfold presence_bit at 1. rewrite Eo.
+        destruct (lookup (m_name m) data) as [v|] eqn:El.
+        * destruct (is_default_value (res (m_ty m)) v d) eqn:Ed; cbn [negb orb] in *.
+          -- assert (a = []) by congruence. subst a. cbn [app].
+             unfold rbind. rewrite (IH _ _ eq_refl). reflexivity.
+          -- unfold rbind. rewrite (HT _ _ _ Ea). rewrite (IH _ _ eq_refl). reflexivity.
+        * assert (a = []) by congruence. subst a. cbn [app].
+          unfold rbind. rewrite (IH _ _ eq_refl). reflexivity.
+  Qed.
+
+  Lemma read_n_bits (pre rest : bits) : read_n (length pre) read_bit (pre ++ rest) = Ok (pre, rest).
+  Proof.
+    rewrite (read_n_rt _ _ _ RT_bit pre pre rest (enc_all_bits pre)). rewrite map_id. reflexivity.
+  Qed.
+
+  Lemma dec_root_rt ms data bs rest :
+    enc_root encT res ms data = Ok bs -> dec_root decT ms (bs ++ rest) = Ok (norm_members ms data, rest).
+  Proof.
+    unfold enc_root, dec_root. destruct (enc_members encT res ms data) as [body|] eqn:Eb; [|discriminate].
+    cbn [bind]. intros H.
+    assert (bs = map (fun m => presence_bit res m data) (filter has_presence_bit ms) ++ body) by congruence.
+    subst bs. unfold rbind. rewrite <- app_assoc.
+    rewrite <- (map_length (fun m => presence_bit res m data) (filter has_presence_bit ms)).
+    rewrite read_n_bits. apply dec_members_rt. exact Eb.
+  Qed.
+
+  (** SEQUENCE OF / SET OF *)
+  Lemma RT_elem elem : RT (encT elem) (decT elem) (normT elem).
+  Proof. intros v bs H rest. apply HT. exact H. Qed.
+
+  Lemma dec_seqof_rt elem sz vs bs rest :
+    enc_seqof encT elem sz (VList vs) = Ok bs ->
+    dec_seqof decT elem sz (bs ++ rest) = Ok (VList (map (normT elem) vs), rest).
+  Proof.
+    unfold enc_seqof, dec_seqof. set (n := Z.of_nat (length vs)).
+    assert (Hroot : forall r,
+      (if size_unbound sz then enc_frag (frag_fuel vs) (encT elem) vs
+       else let* body := enc_all (encT elem) vs in
+            if negb (size_lo sz =? size_hi sz) then
+              if size_in_root sz n then Ok (to_bits (size_nbits sz) (n - size_lo sz) ++ body) else Err EUnmodelled
+            else if n =? size_lo sz then Ok body else Err EUnmodelled) = Ok r ->
+      (if size_unbound sz then do* vs0 <- read_frag_auto (decT elem); rret (VList vs0)
+       else do* extra <- (if negb (size_lo sz =? size_hi sz) then read_uint (size_nbits sz) else rret 0);
+            do* vs0 <- read_n (Z.to_nat (size_lo sz + extra)) (decT elem); rret (VList vs0)) (r ++ rest)
+      = Ok (VList (map (normT elem) vs), rest)).
+    { intros r. destruct (size_unbound sz).
+      - intros H. unfold rbind. rewrite (read_frag_auto_rt _ _ _ (RT_elem elem) _ _ _ _ H). reflexivity.
+      - destruct (enc_all (encT elem) vs) as [body|] eqn:Eb; [|discriminate]. cbn [bind].
+        destruct (negb (size_lo sz =? size_hi sz)) eqn:Ev.
+        + destruct (size_in_root sz n) eqn:Ein; [|discriminate]. intros H.
+          assert (r = to_bits (size_nbits sz) (n - size_lo sz) ++ body) by congruence. subst r.
+          unfold rbind. rewrite <- app_assoc. rewrite read_uint_app by (apply size_offset_fits; exact Ein).
+          replace (Z.to_nat (size_lo sz + (n - size_lo sz))) with (length vs) by (unfold n; lia).
+          rewrite (read_n_rt _ _ _ (RT_elem elem) _ _ _ Eb). reflexivity.
+        + destruct (n =? size_lo sz) eqn:En; [|discriminate]. intros H.
+          assert (r = body) by congruence. subst r. unfold rbind, rret at 1.
+          replace (Z.to_nat (size_lo sz + 0)) with (length vs) by (unfold n in *; lia).
+          rewrite (read_n_rt _ _ _ (RT_elem elem) _ _ _ Eb). reflexivity. }
+    destruct (size_ext sz).
+    - destruct (size_in_root sz n) eqn:Ein.
+      + match goal with |- (let* r := ?root in _) = _ -> _ => destruct root as [r|] eqn:Er; [|discriminate] end.
+        cbn [bind]. intros H. assert (bs = false :: r) by congruence. subst bs.
+        cbn [app]. unfold rbind at 1. cbn [read_bit]. apply Hroot. reflexivity.
+      + unfold enc_len_single. destruct (n <? 16384) eqn:El; [|discriminate]. cbn [bind].
+        destruct (enc_all (encT elem) vs) as [body|] eqn:Eb; [|discriminate]. cbn [bind]. intros H.
+        assert (bs = true :: enc_len_short n ++ body) by congruence. subst bs.
+        cbn [app]. unfold rbind at 1. cbn [read_bit]. unfold rbind. rewrite <- app_assoc.
+        rewrite read_len_short by (unfold n; lia).
+        replace (Z.to_nat n) with (length vs) by (unfold n; lia).
+        rewrite (read_n_rt _ _ _ (RT_elem elem) _ _ _ Eb). reflexivity.
+    - intros H. apply Hroot. exact H.
+  Qed.
+
+  (** CHOICE *)
+  Lemma find_alt_spec name alts : forall i j m,
+    find_alt name alts i = Some (j, m) ->
+    i <= j < i + Z.of_nat (length alts) /\ nth_error alts (Z.to_nat (j - i)) = Some m /\ m_name m = name.
+  Proof.
+    induction alts as [|x alts IH]; intros i j m; cbn [find_alt]; [discriminate|].
+    destruct (String.eqb (m_name x) name) eqn:E.
+    - intros H. assert (i = j /\ x = m) as (-> & ->) by (split; congruence).
+      split; [cbn [length]; lia|]. replace (j - j) with 0 by lia. split; [reflexivity|].
+      apply String.eqb_eq. exact E.
+    - intros H. destruct (IH _ _ _ H) as (Hr & Hn & Hm). split; [cbn [length]; lia|]. split; [|exact Hm].
+      replace (Z.to_nat (j - i)) with (S (Z.to_nat (j - (i + 1)))) by lia. exact Hn.
+  Qed.
+
+  Lemma dec_choice_root_rt root name x bs rest i m :
+    find_alt name root 0 = Some (i, m) ->
+    enc_choice_root encT root name x = Ok bs ->
+    dec_choice_root decT root (bs ++ rest) = Ok (VChoice name (normT (m_ty m) x), rest).
+  Proof.
+    intros Hf. unfold enc_choice_root, dec_choice_root. rewrite Hf.
+    destruct (encT (m_ty m) x) as [body|] eqn:Eb; [|discriminate]. cbn [bind]. intros H.
+    destruct (find_alt_spec _ _ _ _ _ Hf) as (Hr & Hn & Hm). replace (i - 0) with i in Hn by lia.
+    destruct (1 <? length root)%nat eqn:E1.
+    - assert (bs = to_bits (choice_root_bits root) i ++ body) by congruence. subst bs.
+      unfold rbind. rewrite <- app_assoc.
+      rewrite read_uint_app by (unfold choice_root_bits; apply fits_bit_length; lia).
+      rewrite (nth_z_of_index _ i m) by (auto; lia). rewrite (HT _ _ _ Eb). rewrite Hm. reflexivity.
+    - assert (bs = [] ++ body) by congruence. subst bs. cbn [app]. unfold rbind, rret at 1.
+      assert (i = 0) by lia. subst i.
+      rewrite (nth_z_of_index _ 0 m) by (auto; lia). rewrite (HT _ _ _ Eb). rewrite Hm. reflexivity.
+  Qed.
+
+  Lemma pad8_length bs : exists k, length (pad8 bs) = (8 * k)%nat /\ (length bs <= 8 * k)%nat /\
+                                  (length (pad8 bs) / 8)%nat = k.
+  Proof.
+    unfold pad8. rewrite app_length, repeat_length.
+    exists ((length bs + (8 - length bs mod 8) mod 8) / 8)%nat.
+    assert (H : ((length bs + (8 - length bs mod 8) mod 8) mod 8 = 0)%nat).
+    { pose proof (Nat.mod_upper_bound (length bs) 8 ltac:(lia)).
+      pose proof (Nat.div_mod (length bs) 8 ltac:(lia)).
+      destruct (Nat.eq_dec (length bs mod 8) 0) as [E|E].
+      - rewrite E. replace ((8 - 0) mod 8)%nat with 0%nat by reflexivity. rewrite Nat.add_0_r. exact E.
+      - rewrite (Nat.mod_small (8 - length bs mod 8) 8) by lia.
+        replace (length bs + (8 - length bs mod 8))%nat with (8 + 8 * (length bs / 8))%nat by lia.
+        rewrite Nat.add_mod by lia. rewrite Nat.mul_comm, Nat.mod_mul by lia. reflexivity. }
+    pose proof (Nat.div_mod (length bs + (8 - length bs mod 8) mod 8) 8 ltac:(lia)) as Hd.
+    rewrite H in Hd. split; [lia|]. split; [lia|reflexivity].
+  Qed.
+
+  Lemma dec_choice_rt root ext name x bs rest m :
+    (match find_alt name root 0 with
+     | Some (_, m') => m' = m
+     | None => match ext with
+               | Some adds => match find_alt name adds 0 with Some (_, m') => m' = m | None => False end
+               | None => False
+               end
+     end) ->
+    enc_choice encT root ext (VChoice name x) = Ok bs ->
+    dec_choice decT root ext (bs ++ rest) = Ok (VChoice name (normT (m_ty m) x), rest).
+  Proof.
+    unfold enc_choice, dec_choice. intros Hm. destruct ext as [adds|].
+    - destruct (find_alt name root 0) as [[i m']|] eqn:Ef.
+      + subst m'. destruct (enc_choice_root encT root name x) as [r|] eqn:Er; [|discriminate]. cbn [bind].
+        intros H. assert (bs = false :: r) by congruence. subst bs. cbn [app]. unfold rbind at 1.
+        cbn [read_bit negb]. eapply dec_choice_root_rt; eauto.
+      + destruct (find_alt name adds 0) as [[i m']|] eqn:Ea; [|contradiction]. subst m'.
+        destruct (encT (m_ty m) x) as [body|] eqn:Eb; [|discriminate]. cbn [bind].
+        destruct (enc_small_nonneg i) as [idx|] eqn:Ei; [|discriminate]. cbn [bind].
+        unfold enc_len_single.
+        destruct (Z.of_nat (length (pad8 body) / 8) <? 16384) eqn:El; [|discriminate]. cbn [bind]. intros H.
+        assert (bs = true :: idx ++ enc_len_short (Z.of_nat (length (pad8 body) / 8)) ++ pad8 body) by congruence.
+        subst bs. cbn [app]. unfold rbind at 1. cbn [read_bit negb].
+        destruct (find_alt_spec _ _ _ _ _ Ea) as (Hr & Hn & Hnm). replace (i - 0) with i in Hn by lia.
+        unfold rbind at 1. rewrite <- app_assoc. rewrite (read_small_nonneg_rt i idx _ ltac:(lia) Ei).
+        unfold rbind at 1. rewrite <- app_assoc. rewrite read_len_short by lia.
+        rewrite (nth_z_of_index _ i m) by (auto; lia).
+        destruct (pad8_length body) as (k & Hk & Hle & Hdiv).
+        unfold pad8. rewrite <- app_assoc. unfold rbind at 1. unfold with_consumed.
+        rewrite (HT _ _ _ Eb).
+        rewrite !app_length. rewrite repeat_length.
+        set (padn := ((8 - length body mod 8) mod 8)%nat) in *.
+        replace (length body + (padn + length rest) - (padn + length rest))%nat with (length body) by lia.
+        assert (Hnb : Z.to_nat (8 * Z.of_nat ((length body + padn) / 8)) = (length body + padn)%nat).
+        { unfold pad8 in Hk, Hdiv. rewrite app_length, repeat_length in Hk, Hdiv. fold padn in Hk, Hdiv.
+          rewrite Hdiv. lia. }
+        rewrite Hnb.
+        destruct (length body + padn <? length body)%nat eqn:Elt; [lia|].
+        replace (length body + padn - length body)%nat with padn by lia.
+        unfold rbind. unfold skip_bits. rewrite app_length, repeat_length.
+        destruct (padn + length rest <? padn)%nat eqn:E2; [lia|].
+        rewrite skipn_app, repeat_length, Nat.sub_diag. cbn [skipn].
+        rewrite skipn_all2 by (rewrite repeat_length; lia). cbn [app]. rewrite Hnm. reflexivity.
+    - destruct (find_alt name root 0) as [[i m']|] eqn:Ef; [|contradiction]. subst m'.
+      intros H. eapply dec_choice_root_rt; eauto.
+  Qed.
+
+  (** Extension additions of SEQUENCE/SET *)
+  Fixpoint norm_adds (adds : list (addition_of ty)) (data : list (string * value)) : list (string * value) :=
+    match adds with
+    | [] => []
+    | (isgroup, ms) :: r =>
+      if isgroup then
+        match enc_group encT res ms data with
+        | Ok bs => (if (0 <? length bs)%nat then norm_members ms data else []) ++ norm_adds r data
+        | Err _ => []
+        end
+      else
+        match ms with
+        | [m] =>
+          match enc_member encT res m data true with
+          | Ok _ =>
+            (match lookup (m_name m) data with
+             | Some v => [(m_name m, normT (m_ty m) v)]
+             | None => []
+             end) ++ norm_adds r data
+          | Err _ => []
+          end
+        | _ => []
+        end
+    end.
+
+  Lemma dec_adds_all_false k adds rest : dec_adds decT (repeat false k) adds rest = Ok ([], rest).
+  Proof. revert adds. induction k as [|k IH]; intros adds; cbn [repeat dec_adds negb]; [reflexivity|apply IH]. Qed.
+
+  Lemma skip_pad n tail :
+    (let al := (n mod 8)%nat in if (al =? 0)%nat then rret tt else skip_bits (8 - al))
+      (repeat false ((8 - n mod 8) mod 8) ++ tail) = Ok (tt, tail).
+  Proof.
+    cbv zeta. pose proof (Nat.mod_upper_bound n 8 ltac:(lia)).
+    destruct (n mod 8 =? 0)%nat eqn:E.
+    - apply Nat.eqb_eq in E. rewrite E. reflexivity.
+    - apply Nat.eqb_neq in E. rewrite (Nat.mod_small (8 - n mod 8) 8) by lia.
+      unfold skip_bits. rewrite app_length, repeat_length.
+      destruct (8 - n mod 8 + length tail <? 8 - n mod 8)%nat eqn:E2; [lia|].
+      rewrite skipn_app, repeat_length, Nat.sub_diag. cbn [skipn].
+      rewrite skipn_all2 by (rewrite repeat_length; lia). reflexivity.
+  Qed.
+
+  Lemma enc_group_present ms data bs :
+    enc_group encT res ms data = Ok bs -> (0 < length bs)%nat -> enc_root encT res ms data = Ok bs.
+  Proof.
+    unfold enc_group. destruct (enc_root encT res ms data) as [b|] eqn:E; [|discriminate]. cbn [bind].
+    destruct (all_false b && (length b =? length (filter has_presence_bit ms))%nat).
+    - intros H Hl. assert (bs = []) by congruence. subst. cbn in Hl. lia.
+    - intros H _. congruence.
+  Qed.
+
+  Lemma open_type_rt (bs : bits) (fields : list (string * value)) adds tail :
+    (forall rest, dec_one_addition decT adds (Z.of_nat (length (pad8 bs) / 8)) (bs ++ rest) = Ok (fields, rest)) ->
+    (Z.of_nat (length (pad8 bs) / 8) <? 16384) = true ->
+    forall (k : list (string * value) -> reader (list (string * value))),
+    (do* open_len <- read_len;
+     do* (fs, consumed) <- with_consumed (dec_one_addition decT adds open_len);
+     do* _ <- (let al := (consumed mod 8)%nat in if (al =? 0)%nat then rret tt else skip_bits (8 - al));
+     k fs) (enc_len_short (Z.of_nat (length (pad8 bs) / 8)) ++ pad8 bs ++ tail) = k fields tail.
+  Proof.
+    intros Hd Hl k. unfold rbind at 1. rewrite read_len_short by lia.
+    unfold rbind at 1. unfold with_consumed, pad8. rewrite <- app_assoc. rewrite Hd.
+    rewrite !app_length, repeat_length.
+    replace (length bs + ((8 - length bs mod 8) mod 8 + length tail) - ((8 - length bs mod 8) mod 8 + length tail))%nat
+      with (length bs) by lia.
+    unfold rbind at 1. rewrite skip_pad. reflexivity.
+  Qed.
+
+  Lemma dec_adds_rt adds data : forall processed body k rest,
+    enc_adds encT res adds data = Ok processed ->
+    enc_open_types processed = Ok body ->
+    dec_adds decT (map is_some processed ++ repeat false k) adds (body ++ rest) = Ok (norm_adds adds data, rest).
+  Proof.
+    induction adds as [|[isgroup ms] adds IH]; intros processed body k rest; cbn [enc_adds norm_adds].
+    - intros H Hb. assert (processed = []) by congruence. subst. cbn in Hb.
+      assert (body = []) by congruence. subst. cbn [map app]. apply dec_adds_all_false.
+    - destruct isgroup.
+      + (* addition group *)
+        destruct (enc_group encT res ms data) as [bs|x] eqn:Eg; cbn [bind].
+        * destruct (enc_adds encT res adds data) as [rest_p|] eqn:Er; [|discriminate]. cbn [bind]. intros H.
+          rewrite Bool.orb_false_r in H.
+          destruct (0 <? length bs)%nat eqn:Epos.
+          -- assert (processed = Some bs :: rest_p) by congruence. subst processed. cbn [enc_open_types].
+             unfold enc_len_single.
+             destruct (Z.of_nat (length (pad8 bs) / 8) <? 16384) eqn:El; [|discriminate]. cbn [bind].
+             destruct (enc_open_types rest_p) as [more|] eqn:Em; [|discriminate]. cbn [bind]. intros Hb.
+             assert (body = enc_len_short (Z.of_nat (length (pad8 bs) / 8)) ++ pad8 bs ++ more) by congruence.
+             subst body. cbn [map app is_some dec_adds negb tl]. rewrite <- !app_assoc.
+             rewrite (open_type_rt bs (norm_members ms data)); [| |exact El].
+             ++ unfold rbind. rewrite (IH _ _ _ _ eq_refl Em). reflexivity.
+             ++ intros r. cbn [dec_one_addition]. apply dec_root_rt. apply enc_group_present; [exact Eg|].
+                apply Nat.ltb_lt. exact Epos.
+          -- assert (processed = None :: rest_p) by congruence. subst processed. cbn [enc_open_types].
+             intros Hb. cbn [map app is_some dec_adds negb tl]. cbn [app]. apply (IH _ _ _ _ eq_refl Hb).
+        * destruct x; try discriminate. intros H. assert (processed = []) by congruence. subst.
+          cbn [enc_open_types]. intros Hb. assert (body = []) by congruence. subst.
+          cbn [map app]. apply dec_adds_all_false.
+      + (* single addition *)
+        destruct ms as [|m [|m' ms']].
+        * cbn [bind]. discriminate.
+        * unfold enc_member at 1. destruct (lookup (m_name m) data) as [v|] eqn:Elk.
+          -- (* present *)
+             assert (Henc : enc_member encT res m data true = encT (m_ty m) v).
+             { unfold enc_member. rewrite Elk. destruct (m_opt m); try reflexivity. rewrite Bool.orb_true_r. reflexivity. }
+             assert (Hsame : (match m_opt m with
+                              | Default d => if negb (is_default_value (res (m_ty m)) v d) || true then encT (m_ty m) v else Ok []
+                              | _ => encT (m_ty m) v end) = encT (m_ty m) v).
+             { destruct (m_opt m); try reflexivity. rewrite Bool.orb_true_r. reflexivity. }
+             rewrite Hsame, Henc. destruct (encT (m_ty m) v) as [bs|x] eqn:Eb; cbn [bind].
+             ++ destruct (enc_adds encT res adds data) as [rest_p|] eqn:Er; [|discriminate]. cbn [bind]. intros H.
+                rewrite Bool.orb_true_r in H.
+                assert (processed = Some bs :: rest_p) by congruence. subst processed. cbn [enc_open_types].
+                unfold enc_len_single.
+                destruct (Z.of_nat (length (pad8 bs) / 8) <? 16384) eqn:El; [|discriminate]. cbn [bind].
+                destruct (enc_open_types rest_p) as [more|] eqn:Em; [|discriminate]. cbn [bind]. intros Hb.
+                assert (body = enc_len_short (Z.of_nat (length (pad8 bs) / 8)) ++ pad8 bs ++ more) by congruence.
+                subst body. cbn [map app is_some dec_adds negb tl]. rewrite <- !app_assoc.
+                rewrite (open_type_rt bs [(m_name m, normT (m_ty m) v)]); [| |exact El].
+                ** unfold rbind. rewrite (IH _ _ _ _ eq_refl Em). reflexivity.
+                ** intros r. cbn [dec_one_addition]. unfold rbind. rewrite (HT _ _ _ Eb). reflexivity.
+             ++ destruct x; try discriminate. intros H. assert (processed = []) by congruence. subst.
+                cbn [enc_open_types]. intros Hb. assert (body = []) by congruence. subst.
+                cbn [map app]. apply dec_adds_all_false.
+          -- (* absent *)
+             assert (Henc : enc_member encT res m data true =
+                            match m_opt m with Mandatory => Err EEncode | _ => Ok [] end).
+             { unfold enc_member. rewrite Elk. reflexivity. }
+             rewrite Henc. destruct (m_opt m) eqn:Eo; cbn [bind].
+             ++ intros H. assert (processed = []) by congruence. subst.
+                cbn [enc_open_types]. intros Hb. assert (body = []) by congruence. subst.
+                cbn [map app]. apply dec_adds_all_false.
+             ++ destruct (enc_adds encT res adds data) as [rest_p|] eqn:Er; [|discriminate]. cbn [bind]. intros H.
+                cbn [length Nat.ltb Nat.leb orb] in H.
+                assert (processed = None :: rest_p) by congruence. subst processed. cbn [enc_open_types].
+                intros Hb. cbn [map app is_some dec_adds negb tl]. apply (IH _ _ _ _ eq_refl Hb).
+             ++ destruct (enc_adds encT res adds data) as [rest_p|] eqn:Er; [|discriminate]. cbn [bind]. intros H.
+                cbn [length Nat.ltb Nat.leb orb] in H.
+                assert (processed = None :: rest_p) by congruence. subst processed. cbn [enc_open_types].
+                intros Hb. cbn [map app is_some dec_adds negb tl]. apply (IH _ _ _ _ eq_refl Hb).
+        * cbn [bind]. discriminate.
+  Qed.
+End CompositeRT.
